@@ -1,5 +1,6 @@
 // SimFS: in-memory sparse files with visible/durable images + the POSIX seam the library object is
 // redirected to (objcopy --redefine-sym open=pncv_open ...).
+#include <deque>
 #include "sim.hpp"
 #include <cerrno>
 #include <cstdarg>
@@ -121,18 +122,19 @@ void FS::put_file(const std::string &path, const std::vector<uint8_t> &bytes) {
 }
 
 // ------------------------------------------------------------------ POSIX seam
-struct FdEnt { std::shared_ptr<Inode> ino; uint64_t pos = 0; int flags = 0; int owner = -1; bool used = false; bool is_dir = false; };
-static std::vector<FdEnt> fds;
+struct FdEnt { std::shared_ptr<Inode> ino; uint64_t pos = 0; int flags = 0; int owner = -1; bool used = false; bool is_dir = false; std::string path; };
+static std::deque<FdEnt> fds;   // deque: entries keep their address while other ranks open files during a yield
 static const int FD_BASE = 100000;
 void posix_reset() { fds.clear(); }
 static FdEnt *getfd(int fd) { int i = fd - FD_BASE; if (i < 0 || i >= (int)fds.size() || !fds[i].used) return nullptr; return &fds[i]; }
 
-static int posix_fault_counter_check(bool is_write, size_t &len, bool &eintr) {
+static int posix_fault_counter_check(bool is_write, size_t &len, bool &eintr, const std::string &path) {
     // F_POSIX_SHORT: nth wrapped POSIX data call during op on rank
     eintr = false;
     if (!g) return 0;
     for (auto &f : g->faults) {
         if (f.kind != F_POSIX_SHORT || f.fired || f.rank != cur_rank() || f.op != cur_op()) continue;
+        if (f.errclass == 1) { bool log = path.size() > 5 && (path.compare(path.size() - 5, 5, ".meta") == 0 || path.compare(path.size() - 5, 5, ".data") == 0); if (!log) continue; }   // errclass 1: burst-buffer log files only
         if (f.nth-- > 0) continue;
         f.fired = true; g->st.fault_fired[F_POSIX_SHORT]++;
         f.mpi_call = is_write ? "write" : "read"; f.site = lib_site(); f.bytes = (long)len;
@@ -166,7 +168,7 @@ int pncv_open(const char *path, int flags, ...) {
     int idx = -1;
     for (size_t i = 0; i < fds.size(); i++) if (!fds[i].used) { idx = (int)i; break; }
     if (idx < 0) { fds.push_back(FdEnt()); idx = (int)fds.size() - 1; }
-    fds[idx] = FdEnt(); fds[idx].ino = ino; fds[idx].flags = flags; fds[idx].used = true; fds[idx].owner = cur_rank();
+    fds[idx] = FdEnt(); fds[idx].path = p; fds[idx].ino = ino; fds[idx].flags = flags; fds[idx].used = true; fds[idx].owner = cur_rank();
     ino->open_count++;
     rank_res_mut(cur_rank()).fds++;
     ev("posix_open", idx, flags);
@@ -184,19 +186,21 @@ int pncv_close(int fd) {
     return 0;
 }
 static ssize_t do_read(FdEnt *e, void *buf, size_t len, uint64_t off, bool adv) {
-    bool eintr; posix_fault_counter_check(false, len, eintr);
+    bool eintr; posix_fault_counter_check(false, len, eintr, e->path);
     if (eintr) { errno = EINTR; return -1; }
     uint64_t sz = e->ino->vis.size;
     size_t n = off >= sz ? 0 : (size_t)std::min<uint64_t>(len, sz - off);
     if (n) e->ino->vis.read(off, buf, n);
+    if (getenv("VERIF_DEBUG_IO")) fprintf(stderr, "  [io] r%d read %s off=%llu len=%zu first=%d\n", cur_rank(), e->path.c_str(), (unsigned long long)off, n, n ? ((const unsigned char *)buf)[0] : -1);
     if (adv) e->pos = off + n;
     g->st.bytes_read += n;
     return (ssize_t)n;
 }
 static ssize_t do_write(FdEnt *e, const void *buf, size_t len, uint64_t off, bool adv) {
-    bool eintr; posix_fault_counter_check(true, len, eintr);
+    bool eintr; posix_fault_counter_check(true, len, eintr, e->path);
     if (eintr) { errno = EINTR; return -1; }
     if ((e->flags & O_ACCMODE) == O_RDONLY) { errno = EBADF; return -1; }
+    if (getenv("VERIF_DEBUG_IO")) fprintf(stderr, "  [io] r%d write %s off=%llu len=%zu first=%d\n", cur_rank(), e->path.c_str(), (unsigned long long)off, len, len ? ((const unsigned char *)buf)[0] : -1);
     e->ino->write(off, buf, len);
     if (adv) e->pos = off + len;
     g->st.bytes_written += len;
@@ -290,7 +294,7 @@ int pncv_access(const char *path, int mode) {
 }
 // directories: every directory exists in SimFS
 static int dir_token;
-DIR *pncv_opendir(const char *path) { if (!simulated()) return opendir(path); return (DIR *)&dir_token; }
+DIR *pncv_opendir(const char *path) { if (!simulated()) return opendir(path); { std::string p = strip_prefix(path); while (p.size() > 1 && p.back() == '/') p.pop_back(); if (g->fs.lookup(p)) { errno = ENOTDIR; return nullptr; } }   /* a regular file is not a directory; every other path is an existing directory */ return (DIR *)&dir_token; }
 int pncv_closedir(DIR *d) { if ((void *)d == (void *)&dir_token) return 0; return closedir(d); }
 void *pncv_malloc(size_t);
 char *pncv_realpath(const char *path, char *resolved) {
